@@ -12,6 +12,7 @@ import (
 	"fmt"
 	"os"
 	"path/filepath"
+	"regexp"
 	"strings"
 	"testing"
 	"time"
@@ -456,6 +457,60 @@ func TestC05Shapes(t *testing.T) {
 			}
 		}
 	}
+}
+
+// TestC05Fused: every blank inside a tag replaced by nothing or by one token, so that keywords are
+// directly followed by punctuation, strings and numbers (`import(a, 1)`, `with{`, `in[`, `as"x"`):
+// the places where tag parsers decide by token type what comes after a keyword.
+var c05FusedTags = []string{"{% from 'lib' import m0 %}{{ m0(1) }}", "{% from 'lib' import m0 as z, m0 as y %}{{ z(1) }}", "{% import 'lib' as l %}{{ l.m0(1) }}", "{% include 'inc1' with {'a': 1} only %}",
+	"{% include 'inc1' ignore missing %}", "{% include ['nope', 'inc1'] %}", "{% extends 't1' %}{% block b %}x{% endblock b %}", "{% block b %}x{% endblock %}", "{% macro m(x, y = 1) %}{{ x }}{% endmacro %}{{ m(1) }}",
+	"{% set v = 1 %}{{ v }}", "{% set v, w = 1, 2 %}", "{% set v %}x{% endset %}", "{% for k, v in m %}x{% else %}y{% endfor %}", "{% for i in xs %}{{ loop.index }}{% endfor %}", "{% if a %}x{% elseif b %}y{% else %}z{% endif %}",
+	"{% apply upper|lower %}x{% endapply %}", "{% do a %}", "{% verbatim %}x{% endverbatim %}", "{% spaceless %}<a> <b>{% endspaceless %}", "{{ a is not defined }}", "{{ a not in xs }}", "{{ b starts with 'b' }}",
+	"{{ b ends with 'e' }}", "{{ a is divisible by(2) }}", "{{ a is same as(b) }}", "{{ xs|slice(1, 2)|join(',') }}", "{{ a ? b : xs[0] }}", "{{ a and not b or t }}", "{{ m.k1 ~ m['name'] }}", "{{ range(1, 3)|first }}"}
+
+var c05FusedFill = []string{"", "(", ")", "\"a\"", "'a'", "1", "+", ",", "=", "[", "]", "{", "|", ".", "-", "%", ":", "\t", "\n"}
+
+func TestC05Fused(t *testing.T) {
+	r := NewRec(t, "C05", "bounded exhaustive: 30 valid tags and tag pairs x every blank inside a tag x 19 fillings (nothing, one punctuation/operator character, a quoted string, a number, tab, newline), as written and behind 4100 bytes of text; parsed and rendered under recover and the watchdog; non-trivial = the blank follows or precedes a keyword of the tag")
+	defer r.Flush()
+	r.SetExhaustive()
+	tm := map[string]string{"inc1": "I{{ a }}", "t1": "T[{% block b %}{% endblock %}]", "lib": "{% macro m0(x) %}M{{ x }}{% endmacro %}"}
+	ctx := fuzzCtx(0)
+	kw := regexp.MustCompile(`(from|import|as|include|with|only|ignore|missing|extends|block|endblock|macro|set|for|in|if|elseif|apply|do|is|not|starts|ends|divisible|by|same|and|or)$`)
+	pad := strings.Repeat("0123456789abcdef", 257)
+	for _, tag := range c05FusedTags {
+		inTag := false
+		for i := 0; i < len(tag); i++ {
+			if strings.HasPrefix(tag[i:], "{%") || strings.HasPrefix(tag[i:], "{{") {
+				inTag = true
+			} else if strings.HasPrefix(tag[i:], "%}") || strings.HasPrefix(tag[i:], "}}") {
+				inTag = false
+			}
+			if !inTag || tag[i] != ' ' {
+				continue
+			}
+			for _, f := range c05FusedFill {
+				for _, prefix := range []string{"", pad} {
+					src := prefix + tag[:i] + f + tag[i+1:]
+					c := C05SrcCase{Templates: tm, Src: BStr(src), Ctx: ctx}
+					journal(t.Name(), c)
+					r.Case(src, kw.MatchString(tag[:i]) || kw.MatchString(strings.TrimRight(reverseWords(tag[i+1:]), " ")), q(trunc(tag[:i]+f+tag[i+1:])), "fill:"+q(f))
+					if err := checkC05Src(c); err != nil {
+						r.FailEnumKey(t, "C05.src", panicKey(err), c, err)
+					}
+				}
+			}
+		}
+	}
+}
+
+// reverseWords returns the first word of s (so that the keyword pattern, anchored at the end, can
+// be applied to what follows a blank)
+func reverseWords(s string) string {
+	if i := strings.IndexAny(s, " %}|(,"); i >= 0 {
+		return s[:i]
+	}
+	return s
 }
 
 // ---- compiled blobs ------------------------------------------------------------------------------
